@@ -210,10 +210,14 @@ _TC = ["TransEquiv.emitClose_body_eq", "TransEquiv.local_close_body_eq", "TransE
        "TransEquiv.CheckEncoding_eq", "TransEquiv.classify_u16"]
 _TN = ["TransEquiv.setThreshold_eq", "TransEquiv.initServerOption_pd_eq", "TransEquiv.initClientOption_pd_eq"]
 _TL = ["TransEquiv.initServerOption_limits_pos", "TransEquiv.initClientOption_limits_pos"]
+_TP = ["TransEquiv.Parse_eq", "TransEquiv.afterPayload_eq"]
 _TRANS = {
-    "C03": (["Gws.Props.TransFrame", "Gws.Props.TransReader"], _TF + _TR),
-    "C04": (["Gws.Props.TransFrame", "Gws.Props.TransReader", "Gws.Props.TransWindow", "Gws.Props.TransNego"], _TF + _TR + ["TransEquiv.binaryCeil_eq", "TransEquiv.Max_eq"] + _TL),
-    "C13": (["Gws.Props.TransFrame", "Gws.Props.TransReader", "Gws.Props.TransNego"], _TF + _TR + _TL),
+    "C03": (["Gws.Props.TransFrame", "Gws.Props.TransReader", "Gws.Props.TransParse", "Gws.Props.TransFragment"], _TF + _TR + _TP),
+    "C04": (["Gws.Props.TransFrame", "Gws.Props.TransReader", "Gws.Props.TransParse", "Gws.Props.TransFragment", "Gws.Props.TransWindow", "Gws.Props.TransNego"],
+            _TF + _TR + _TP + ["TransEquiv.binaryCeil_eq", "TransEquiv.Max_eq"] + _TL),
+    "C13": (["Gws.Props.TransFrame", "Gws.Props.TransReader", "Gws.Props.TransParse", "Gws.Props.TransFragment", "Gws.Props.TransNego", "Gws.Props.TransLimited"],
+            _TF + _TR + _TP + _TL + ["TransEquiv.limitedReader_Read_eq", "TransEquiv.copy_step_eq"]),
+    "C15": (["Gws.Props.TransQueue"], ["TransEquiv.getJob_eq"]),
     "C05": (["Gws.Props.TransFrame", "Gws.Props.TransClose"], ["TransEquiv.SetLength_eq", "TransEquiv.GenerateHeader_eq", "TransEquiv.local_close_body_eq"]),
     "C06": (["Gws.Props.TransClose"], _TC),
     "C16": (["Gws.Props.TransClose"], ["TransEquiv.CheckEncoding_eq", "TransEquiv.emitClose_body_eq"]),
